@@ -22,6 +22,9 @@ def dispatch(prop, tier, replay):
     if prop == "C07":
         from . import check_srcimage
         return check_srcimage.check_c07(tier).finish()
+    if prop == "C08":
+        from . import check_srcimage
+        return check_srcimage.check_c08(tier).finish()
     if prop == "C16":
         from . import check_gen
         return check_gen.check_c16(tier).finish()
